@@ -791,6 +791,34 @@ pub fn gen_c17(tier: Tier, seed: u64) -> Case {
             program.push(Op::Rotate { ks });
         }
     }
+    // a sealed journal that is still registered (another keyspace has unflushed data in it) when
+    // the last handle is dropped: the journal manager's keyspace handles must not keep the
+    // instance (and its lock) alive
+    let mut sealed = false;
+    if g.cfg.workers == 0 && g.r.chance(1, 3) {
+        let mut live: Vec<u8> = (0..n_names as u8).filter(|k| g.exists[*k as usize]).collect();
+        if live.len() < 2 {
+            if let Some(k) = (0..n_names as u8).find(|k| !g.exists[*k as usize]) {
+                program.push(Op::CreateKs { ks: k });
+                g.exists[k as usize] = true;
+                live.push(k);
+            }
+        }
+        if live.len() >= 2 {
+            g.cfg.rotation_threshold = 512;
+            let (a, b) = (live[0], live[1]);
+            let v = g.val_sized(700, false);
+            program.push(Op::Insert { ks: a, key: 0, val: v });
+            let v = g.val_sized(100, true);
+            program.push(Op::Insert { ks: b, key: 1, val: v });
+            program.push(Op::Rotate { ks: a });
+            program.push(Op::WorkerStep);
+            if g.r.chance(1, 2) {
+                program.push(Op::WorkerStep);
+            }
+            sealed = true;
+        }
+    }
     program.push(Op::SecondOpen);
     program.push(Op::Reopen);
     let fault = if marker {
@@ -807,7 +835,7 @@ pub fn gen_c17(tier: Tier, seed: u64) -> Case {
     } else {
         Fault::None
     };
-    let class = format!("{:?}-w{}{}", kind, g.cfg.workers, if marker { "-marker" } else { "" });
+    let class = format!("{:?}-w{}{}{}", kind, g.cfg.workers, if marker { "-marker" } else { "" }, if sealed { "-sealed-at-close" } else { "" });
     Case {
         prop: "C17".into(),
         seed,
